@@ -1,5 +1,5 @@
 """C17 — reused comparison targets carry nothing over (the history clause is decided by typestate)."""
-from ..rules import effbs, validate, typestate, fields, vis, eqord, witness, casts, summary, features
+from ..rules import effbs, validate, typestate, fields, vis, eqord, witness, casts, summary, features, beliefs
 
 EXPL = ("Decides the history clause: typestate Zero/Unknown over the 64xu64 occupancy-mask arrays of FuzzyHashCompareTarget (two "
         "locations, through the block_hash_K_mut views) and BlockHashPositionArray, with effects inferred from bodies (Clear = whole "
@@ -25,6 +25,7 @@ def run(ctx):
         ctx.guard("C17", "equiv", lambda: typestate.equiv_exact(ctx, prog))
         ctx.guard("C17", "accumulate", lambda: typestate.accumulate_exact(ctx, prog))
         ctx.guard("C17", "validnorm", lambda: typestate.valid_normalized_shape(ctx, prog))
+        ctx.guard("C17", "validcontent", lambda: typestate.valid_content(ctx, prog))
         ctx.guard("C17", "like", lambda: fields.like_index(ctx, prog, scope=r"internals::compare::|<internals::compare::", floor=3))
         ctx.guard("C17", "complete", lambda: fields.dest_complete(ctx, prog, scope=r"internals::compare::|<internals::compare::", floor=1))
         ctx.guard("C17", "vis", lambda: vis.representation_private(ctx, prog))
@@ -35,6 +36,8 @@ def run(ctx):
         ctx.guard("C17", "distance-exits", lambda: effbs.distance_exits(ctx, prog))
         ctx.guard("C17", "summaries", lambda: summary.check(ctx, prog, 'compare::position_array::|FuzzyHashCompareTarget::(new|init_from|block_hash_[12]|is_equiv|full_eq|log_block_size|block_size)|core::default::Default>::default', floor=10))
         ctx.guard("C17", "path summaries", lambda: summary.check_paths(ctx, prog, 'compare::position_array::|FuzzyHashCompareTarget::(new|init_from|block_hash_[12]|is_equiv|full_eq|log_block_size|block_size)|core::default::Default>::default', floor=6))
+        if c in ("dbg", "unsafe_dbg", "strict_dbg"):
+            ctx.guard("C17", "beliefs", lambda: beliefs.census(ctx, prog, beliefs.SCOPES["C17"][0], floor=beliefs.SCOPES["C17"][1]))
         if c == "dbg":
             ctx.guard("C17", "contracts", lambda: validate.constructors(ctx, prog))
         ctx.guard("C17", "traits", lambda: vis.trait_census(ctx, prog, scope='position_array::|FuzzyHashCompareTarget'))
